@@ -36,7 +36,7 @@ CHECKS = {
     "C08": ("model_checking", "For every prefix of histories that may overdraw accounts (several exchanges/holders, transient overdrafts refilled later, same-instant credit+debit), "
             "with and without -n: rejected with an error naming an overdrawn account iff the spec's ledger goes below -1e-10; never rejected otherwise; with -n the run proceeds and reports the negative balance.", "4.2, 6 C08"),
     "C09": ("model_checking", "One abstract behaviour must explain the run on the full history, the runs on every truncated history and the runs limited by -t: fractions (as sets of "
-            "tuples), yearly totals and balances of the truncated / to-date runs must be the restriction of the full behaviour; AppendOnly is checked on the design.", "2, 6 C09"),
+            "tuples), yearly totals and balances of the truncated / to-date runs must be the restriction of the full behaviour; end to end, a two-asset input and the same input cut at an instant T are a pair judged the same way; AppendOnly is checked on the design.", "2, 6 C09"),
     "C10": ("model_checking", "For sampled (quick) / all (thorough) windows from<=to over and around the transaction dates: shown transactions, taxable events and fractions are exactly "
             "those dated in the window with unchanged figures; balances, average price and k/n labels are those at the to-date; yearly lines start with the from-date's year.", "4.1, 6 C10"),
     "C11": ("model_checking", "The sheet automaton and column semantics of spec/Rp2Sheet.tla decide every sheet: MC_Sheet checks the automaton against the documented grammar over all row-token "
@@ -50,9 +50,9 @@ CHECKS = {
             "away from the transactions; schedules placed relative to the first year; single/multi asset, sparse years, fully sold, income-only inputs) and run in fresh processes; exit 0, exactly "
             "the expected report files, each a readable document (Rp2Run!RunFails). Pairwise-covering sample in quick, far larger sample in thorough.", "4.6, 6 C16"),
     "C17": ("model_checking", "Groups of end-to-end runs on one abstract input (repeat, other PYTHONHASHSEEDs, dirty output directory, permuted rows, permuted tables, asset subsets) must be explained by one "
-            "set of computed results (normalised ComputedData per asset) and, for byte-identical inputs, identical content.xml digests (Rp2Run!GroupFails).", "2, 4.6, 6 C17"),
+            "set of computed results (normalised ComputedData per asset) and, for byte-identical inputs, identical content.xml digests; an asset's own sheets and the lines the shared sheets hold about it are the same whatever other assets are processed, also under a mid-year from-date (Rp2Run!GroupFails).", "2, 4.6, 6 C17"),
     "C18": ("model_checking", "Audited end-to-end runs (sys.addaudithook installed before rp2 is imported, new interpreter, python -B) of every entry point on valid input and on each fault class: every "
-            "effect must be an action of Rp2Run (reads anywhere; writes/renames/removals only under the output directory and ./log; no action exists for socket, name resolution or process "
+            "effect must be an action of Rp2Run (reads anywhere; writes/renames/removals only under the output directory - given absolute or relative - and ./log, relative paths meaning what they meant at the moment of the effect; no action exists for socket, name resolution or process "
             "events), inputs byte-identical afterwards; plus the import facts of every source file fed to the same specification.", "4.6, 6 C18, 8"),
     "C13": ("model_checking", "End-to-end runs of every country entry point (shipped languages, methods, schedules, date windows, 1-3 assets assembled from TLC-generated histories, permuted rows and "
             "tables, seven unit pairs) with the ComputedData of the same run captured before the generators; rp2_full_report.ods is read back cell by cell and TLC checks (Rp2Docs!FullAssetFails / "
